@@ -117,7 +117,28 @@ class DataGen:
         return w
 
 
+def interleave_scenario(seed, i):
+    """two branches write one root-declared name in turn, with values from a pool of two: an act that inherited a copy of the name from its
+    predecessor writes that very value back after the other branch has changed the scope (1, 2, 1 on the scope ends as 1)"""
+    rng = Rng(seed * 961748927 + i)
+    nm = rng.pick(NAMES)
+    mk = lambda aid, out: dict({"id": aid, "uses": gen.IRQ, "key": "k" + aid}, **({"outputs": {nm: None}} if out else {}))
+    n1 = rng.range(2, 4)
+    b1 = {"id": "b1", "if": "true", "steps": [{"id": "s1", "acts": [mk(f"p{j}", j < n1 - 1 or rng.chance(1, 2)) for j in range(n1)]}]}
+    b2 = {"id": "b2", "if": "true", "steps": [{"id": "s2", "acts": [mk(f"q{j}", True) for j in range(rng.range(1, 3))]}]}
+    w = {"id": "m1", "inputs": {nm: 0}, "outputs": {nm: None}, "steps": [{"id": "s0", "branches": [b1, b2]}]}
+    ops = [["deploy", 0], ["start", "m1", {"pid": "p1"}]]
+    pool = [rng.range(101, 150), rng.range(151, 199)]
+    for _ in range(8):
+        ops.append(["runall", rng.pick(["fifo", "lifo"]), rng.below(1 << 30)])
+        ops.append(["act", "next", "p1", {"open": rng.below(2)}, {nm: rng.pick(pool)}])
+    ops.append(["runall"])
+    return {"id": f"c07-{seed}-{i}-interleave", "config": {"keep": True, "dump_each": True}, "models": [w], "ops": ops, "exprs": {"true": ["lit", True]}, "two": False}
+
+
 def gen_scenario(seed, i):
+    if i % 10 == 7:
+        return interleave_scenario(seed, i)
     rng = Rng(seed * 961748927 + i)
     g = DataGen(rng.fork("wf"))
     w = g.workflow("m1")
